@@ -35,8 +35,9 @@ end field
 
 section real
 variable [FRem ℝ] [Lits ℝ]
-/-- converting the matrix of a unit quaternion back returns `q` or `-q`, on whichever of the code's paths (non-negative
-trace; negative trace with the first, second or third diagonal element largest) the comparisons select -/
+/-- converting the matrix of a unit quaternion back returns `q` or `-q`, on each of the four paths listed (non-negative
+trace; negative trace with the first, second or third diagonal element largest).  These are four of the code's five paths: the
+fifth (`zz2`) is in `code_round_trip_all_paths`, `E2E/C05c.lean` -/
 theorem code_round_trip (q : Quat ℝ) (hq : q.magnitude2 = 1) :
     ∃ r : Quat ℝ, (r = q ∨ r = -q) ∧
       (let m := q.toM3
